@@ -156,8 +156,9 @@ class GridImpl:
 
     # one protocol line -------------------------------------------------------------------
     def line(self, w):
-        before = self.trace[-1]["after"] if self.trace else self.snap()
-        ent = {"op": list(w), "before": before}
+        ent = {"op": list(w)}
+        if not self.trace:
+            ent["before"] = self.snap()  # later entries: before = the previous entry's after (see trace_before)
         try:
             out, val = self.do(w)
         except Exception as e:  # noqa: BLE001
@@ -281,8 +282,9 @@ class NetImpl:
         return {"pos": tuple(a.pos for a in self.agents), "cells": cells}
 
     def line(self, w):
-        before = self.trace[-1]["after"] if self.trace else self.snap()
-        ent = {"op": list(w), "before": before}
+        ent = {"op": list(w)}
+        if not self.trace:
+            ent["before"] = self.snap()  # later entries: before = the previous entry's after (see trace_before)
         try:
             out, val = self.do(w)
         except Exception as e:  # noqa: BLE001
@@ -327,6 +329,10 @@ class NetImpl:
             cs = " ".join(f"{v}={fmt_cell(s['cells'][str(v)])}" for v in range(self.n) if s["cells"][str(v)])
             return f"ok P {ps} C {cs}", None
         raise AssertionError(f"unknown op {w}")
+
+
+def trace_before(tr, i):
+    return tr[i]["before"] if i == 0 else tr[i - 1]["after"]
 
 
 def make_impl(header):
@@ -745,7 +751,7 @@ def oracle_c08(sc, obs):
         return dx * dx + dy * dy
 
     for i, e in enumerate(tr):
-        op, res, B, A = e["op"], e["res"], e["before"], e["after"]
+        op, res, B, A = e["op"], e["res"], trace_before(tr, i), e["after"]
         Bc = {tuple(map(int, kk.split(","))): tuple(v) for kk, v in B["cells"].items()}
         k = op[0]
         where = f"line {i + 1} ({' '.join(op[:4])})"
@@ -915,7 +921,7 @@ def oracle_c09(sc, obs):
             adj[a].add(c)
             adj[c].add(a)
         for i, e in enumerate(tr):
-            op, res, B = e["op"], e["res"], e["before"]
+            op, res, B = e["op"], e["res"], trace_before(tr, i)
             where = f"line {i + 1} ({' '.join(op)})"
             if op[0] in ("nnbhd", "nnbrs") and res.startswith("ok"):
                 v, ic, r = int(op[1]), op[2] == "1", int(op[3])
@@ -950,7 +956,7 @@ def oracle_c09(sc, obs):
     order = [(x, y) for x in range(w) for y in range(h)]
     ing = lambda p: 0 <= p[0] < w and 0 <= p[1] < h  # noqa: E731
     for i, e in enumerate(tr):
-        op, res, B = e["op"], e["res"], e["before"]
+        op, res, B = e["op"], e["res"], trace_before(tr, i)
         k = op[0]
         where = f"line {i + 1} ({' '.join(op)})"
         if k in ("nbhd", "inbhd", "nbrs", "inbrs", "nmask"):
